@@ -320,7 +320,7 @@ func c13EvalRerun(c *Ctx, raw []byte) {
 			c.Direct("re-executed operation == fresh operation with the same configuration on the data at that time (an execution leaves no state in the operation object)",
 				tag == tagR && canon(after) == canon(afterR) && canon(outs) == canon(outsR),
 				det(map[string]any{"execution": runs, "data-before": before,
-					"same-object": map[string]any{"out": tag, "text": txt, "data": after, "files": outs},
+					"same-object":  map[string]any{"out": tag, "text": txt, "data": after, "files": outs},
 					"fresh-object": map[string]any{"out": tagR, "text": txtR, "data": afterR, "files": outsR}}))
 			c.Dist(fmt.Sprintf("rerun:%s:execution-%d:%s", p.Kind, min(runs, 4), tag))
 			if p.Kind != "export" {
@@ -688,4 +688,3 @@ func c13RunRerun(c *Ctx) {
 		}
 	}
 }
-
